@@ -75,6 +75,9 @@ def forms():
     uni = gen.simple_form([("text", "q1", {"label": "Âge — 年齢 \U0001F600", "hint": "Ошибка"}), ("select_one l1", "s1", {"label": "Wähle"})],
                           choices={"l1": [{"name": "a", "label": "Ä"}, {"name": "b", "label": "ב"}]}, settings={"form_id": "funi", "form_title": "Título ünï"})
     out["valid_unicode"] = uni
+    # form ids that are not file names: the id is free text, whatever temporary file the validator is given
+    out["valid_odd_id"] = gen.simple_form([("text", "q1", {"label": "Q1"})], settings={"form_id": "dir/sub id:\\x", "form_title": "odd id"})
+    out["valid_long_id"] = gen.simple_form([("text", "q1", {"label": "Q1"})], settings={"form_id": "L" + "o" * 300 + "ng", "form_title": "long id"})
     bad = gen.simple_form([("text", "q1", {"label": "Q"}), ("begin group", "g", {"label": "G"}, [("textt", "q2", {"label": "Q"})])])
     out["invalid_sheet"] = bad  # rejected by workbook_to_json
     late = gen.simple_form([("text", "q1", {"label": "Q ${nosuch}"})])
@@ -188,6 +191,10 @@ def stderr_shape(rng, shape):
         L += [f"org.javarosa.core.log.WrappedException: {u()} error evaluating {path()}", "\tat org.javarosa.core.model.FormDef.initialize(FormDef.java:%d)" % rng.randrange(999),
               "    at org.javarosa.form.api.FormEntryModel.<init>(FormEntryModel.java:9)", "\t... %d more" % rng.randrange(2, 40), f"Caused by: cause {u()} at {path()}",
               "\tat org.javarosa.xpath.expr.XPathPathExpr.eval(XPathPathExpr.java:%d)" % rng.randrange(999), "\t... %d more" % rng.randrange(2, 40), f"Result: Invalid {u()}"]
+    elif shape == "jvmnotice":
+        # what a JVM prints first when JAVA_TOOL_OPTIONS / _JAVA_OPTIONS is set in the environment; the validator's own lines follow
+        L += [rng.choice(["Picked up JAVA_TOOL_OPTIONS: -Xmx64m -Dfile.encoding=UTF-8", "Picked up _JAVA_OPTIONS: -Djava.awt.headless=true"]),
+              f">> XPath evaluation {u()}: type mismatch at {path()}[1]", f"Error evaluating field '{u()}' ({path()}[1])", f">> Xform is invalid! See above for the errors. {u()}"]
     elif shape == "crlf":
         L += [f"line one {u()} {path()}\r", f"line two {u()}\r", f"line three {u()}"]
     elif shape == "unicode":
@@ -212,8 +219,8 @@ def stderr_shape(rng, shape):
     return ("\n".join(L) + "\n").encode("utf-8")
 
 
-REJECT_SHAPES = ["stacktail", "parse", "xpath", "dupes", "excluded", "javaprefix", "crlf", "unicode", "jarfile", "big", "wsedge", "empty", "latin1", "highbytes", "utf8-plus-stray-byte"]
-WARN_SHAPES = ["xpath", "dupes", "unicode", "crlf", "latin1", "big", "excluded", "highbytes", "utf8-plus-stray-byte"]
+REJECT_SHAPES = ["jvmnotice", "stacktail", "parse", "xpath", "dupes", "excluded", "javaprefix", "crlf", "unicode", "jarfile", "big", "wsedge", "empty", "latin1", "highbytes", "utf8-plus-stray-byte"]
+WARN_SHAPES = ["jvmnotice", "xpath", "dupes", "unicode", "crlf", "latin1", "big", "excluded", "highbytes", "utf8-plus-stray-byte"]
 
 # outcome kinds -> (class, scenario for the stand-in)
 def outcomes(tier):
@@ -243,7 +250,7 @@ def enumerate_scripts(tier, seed):
     """Deterministic list of scripts (dicts). thorough = the full cross product of the reduced space; quick = a covering subset."""
     S = []
     outs = outcomes(tier)
-    fkeys = ["valid", "valid_ext", "valid_warn", "invalid_sheet", "invalid_late", "valid_ext_loop", "valid_unicode"]
+    fkeys = ["valid", "valid_ext", "valid_warn", "invalid_sheet", "invalid_late", "valid_ext_loop", "valid_unicode", "valid_odd_id", "valid_long_id"]
     def add(**kw):
         kw["id"] = len(S)
         S.append(kw)
@@ -271,7 +278,7 @@ def enumerate_scripts(tier, seed):
         k = 0
         for (ok, shape) in outs:
             for mode in vm:
-                fk = ["valid", "valid_ext", "valid_warn", "valid_ext_loop", "valid_unicode"][k % 5]
+                fk = ["valid", "valid_ext", "valid_warn", "valid_ext_loop", "valid_unicode", "valid_odd_id", "valid_long_id"][k % 7]
                 add(outcome=ok, shape=shape, mode=mode, form=fk, pre=(k % 2 == 1) and not mode.startswith("lib"), pretty=(k % 5 == 0), fp=None)
                 k += 1
         # non-validating modes and invalid forms x a few outcomes
@@ -341,6 +348,10 @@ def run_script(ctx, sc, base, FORMS, seed):
         elif not ref.ok:
             ctx.ctr("reference_unexpected")
             ctx.obs(kind="reference_failed", form=sc["form"], fmt=fmt, err=ref.brief())
+            if not ref.exc_is_pyxform:
+                # a valid form, no validator involved yet, and something other than the library's error comes out (the temporary file, the writer ...)
+                ctx.ctr("evaluations_cut_short_by_internal_exception")
+                V(f"convert:internal-exception-without-validation:{ref.exc_type}:{sc['form']}", f"form class {sc['form']} ({fmt}) raised {ref.brief()[:200]} at {ref.exc_frame} with validate=False")
             return
         if form.external_choices and ref.itemsets is None:
             V(f"itemsets:missing-although-external-choices-are-used:{sc['form']}", f"form class {sc['form']} has an external_choices sheet and a select_one_external question, but convert() returns no itemsets")
